@@ -78,13 +78,32 @@ class ScopeContext:
     async def __aenter__(self) -> None:
         await self._task_group_context.__aenter__()
 
-        if self._disposables is not None:
-            self._state_context = StateContext.updated(
-                (*self._state, *await self._disposables.__aenter__())
-            )
+        try:
+            if self._disposables is not None:
+                self._state_context = StateContext.updated(
+                    (*self._state, *await self._disposables.__aenter__())
+                )
 
-        else:
-            self._state_context = StateContext.updated(self._state)
+            else:
+                self._state_context = StateContext.updated(self._state)
+
+        except BaseException as exc:  # do not leave partially entered context
+            try:
+                await self._task_group_context.__aexit__(
+                    exc_type=type(exc),
+                    exc_val=exc,
+                    exc_tb=exc.__traceback__,
+                )
+
+            finally:  # finish metrics to allow completing parent scopes
+                self._metrics_context.__enter__()
+                self._metrics_context.__exit__(
+                    exc_type=type(exc),
+                    exc_val=exc,
+                    exc_tb=exc.__traceback__,
+                )
+
+            raise
 
         self._state_context.__enter__()
         self._metrics_context.__enter__()
@@ -95,30 +114,38 @@ class ScopeContext:
         exc_val: BaseException | None,
         exc_tb: TracebackType | None,
     ) -> None:
-        if self._disposables is not None:
-            await self._disposables.__aexit__(
-                exc_type=exc_type,
-                exc_val=exc_val,
-                exc_tb=exc_tb,
-            )
+        try:
+            if self._disposables is not None:
+                await self._disposables.__aexit__(
+                    exc_type=exc_type,
+                    exc_val=exc_val,
+                    exc_tb=exc_tb,
+                )
 
-        await self._task_group_context.__aexit__(
-            exc_type=exc_type,
-            exc_val=exc_val,
-            exc_tb=exc_tb,
-        )
+        except BaseException as exc:  # cleanup failure becomes the exit reason
+            exc_type, exc_val, exc_tb = type(exc), exc, exc.__traceback__
+            raise
 
-        self._metrics_context.__exit__(
-            exc_type=exc_type,
-            exc_val=exc_val,
-            exc_tb=exc_tb,
-        )
+        finally:
+            try:
+                await self._task_group_context.__aexit__(
+                    exc_type=exc_type,
+                    exc_val=exc_val,
+                    exc_tb=exc_tb,
+                )
 
-        self._state_context.__exit__(
-            exc_type=exc_type,
-            exc_val=exc_val,
-            exc_tb=exc_tb,
-        )
+            finally:
+                self._metrics_context.__exit__(
+                    exc_type=exc_type,
+                    exc_val=exc_val,
+                    exc_tb=exc_tb,
+                )
+
+                self._state_context.__exit__(
+                    exc_type=exc_type,
+                    exc_val=exc_val,
+                    exc_tb=exc_tb,
+                )
 
 
 @final
